@@ -68,6 +68,19 @@ func buildSim(race bool) (string, error) {
 		fmt.Fprintf(os.Stderr, "[check] overlay: %d files scanned, %d rewritten, %d injected\n", stt.FilesScanned, stt.FilesRewritten, stt.Injected)
 		args = append(args, "-overlay", ov)
 	}
+	if repoDir != "/repo" {
+		// development: build against another checkout of perkeep (mutation
+		// experiments in a scratch worktree) through an alternate go.mod
+		mod, err := os.ReadFile(filepath.Join(verifDir, "go.mod"))
+		if err != nil {
+			return "", err
+		}
+		alt := filepath.Join(workDir(), "go.alt.mod")
+		os.WriteFile(alt, []byte(strings.Replace(string(mod), "=> /repo", "=> "+repoDir, 1)), 0o644)
+		sum, _ := os.ReadFile(filepath.Join(verifDir, "go.sum"))
+		os.WriteFile(filepath.Join(workDir(), "go.alt.sum"), sum, 0o644)
+		args = append(args, "-modfile="+alt)
+	}
 	args = append(args, "./simtest")
 	cmd := exec.Command("go", args...)
 	cmd.Dir = verifDir
